@@ -73,3 +73,141 @@ pub mod io {
         );
     }
 }
+
+/// Facade over the crate-private write-ahead-log entry points.
+pub mod wal {
+    use crate::{
+        io::{disk::FileOperations, wal::WriteAheadLog},
+        storage::wal::{OwnedRecord, RecordType},
+    };
+    use std::{
+        io::{self, Write},
+        path::Path,
+    };
+
+    pub const KINDS: [u8; 10] = [0x00, 0x01, 0x02, 0x03, 0x06, 0x07, 0x08, 0x09, 0x0A, 0x0B];
+
+    fn kind_from(k: u8) -> Option<RecordType> {
+        Some(match k {
+            0x00 => RecordType::Begin,
+            0x01 => RecordType::Commit,
+            0x02 => RecordType::Abort,
+            0x03 => RecordType::End,
+            0x06 => RecordType::Update,
+            0x07 => RecordType::Delete,
+            0x08 => RecordType::Insert,
+            0x09 => RecordType::Create,
+            0x0A => RecordType::Drop,
+            0x0B => RecordType::Alter,
+            _ => return None,
+        })
+    }
+
+    /// A record as read back from the log, copied out field by field.
+    #[derive(Debug, Clone, PartialEq, Eq)]
+    pub struct RecordView {
+        pub lsn: u64,
+        pub tid: u64,
+        pub prev_lsn: Option<u64>,
+        pub object_id: Option<u64>,
+        pub row_id: Option<u64>,
+        pub kind: u8,
+        pub undo: Vec<u8>,
+        pub redo: Vec<u8>,
+    }
+
+    pub struct Wal(WriteAheadLog);
+
+    impl Wal {
+        pub fn create(path: impl AsRef<Path>) -> io::Result<Self> {
+            WriteAheadLog::create(path).map(Wal)
+        }
+
+        pub fn open(path: impl AsRef<Path>) -> io::Result<Self> {
+            WriteAheadLog::open(path).map(Wal)
+        }
+
+        pub fn max_record_size(&self) -> usize {
+            self.0.max_record_size()
+        }
+
+        pub fn block_size(&self) -> usize {
+            self.0.stats().block_size
+        }
+
+        pub fn last_lsn(&self) -> Option<u64> {
+            self.0.last_lsn()
+        }
+
+        /// Size a record with these payload lengths occupies in a block.
+        pub fn record_size(undo_len: usize, redo_len: usize) -> usize {
+            crate::storage::wal::RECORD_HEADER_SIZE
+                + OwnedRecord::compute_padded_size(undo_len + redo_len)
+        }
+
+        /// Appends one record with an explicit LSN (mirrors `WriteAheadLog::push`).
+        #[allow(clippy::too_many_arguments)]
+        pub fn push(
+            &mut self,
+            lsn: u64,
+            kind: u8,
+            tid: u64,
+            prev_lsn: Option<u64>,
+            object_id: Option<u64>,
+            row_id: Option<u64>,
+            undo: &[u8],
+            redo: &[u8],
+        ) -> io::Result<()> {
+            let kind = kind_from(kind)
+                .ok_or_else(|| io::Error::new(io::ErrorKind::InvalidInput, "unknown record kind"))?;
+            let record = OwnedRecord::new(lsn, tid, prev_lsn, object_id, row_id, kind, undo, redo);
+            self.0.push(record)
+        }
+
+        /// Appends one record choosing the LSN the way `Pager::push_to_log` does.
+        #[allow(clippy::too_many_arguments)]
+        pub fn append(
+            &mut self,
+            kind: u8,
+            tid: u64,
+            prev_lsn: Option<u64>,
+            object_id: Option<u64>,
+            row_id: Option<u64>,
+            undo: &[u8],
+            redo: &[u8],
+        ) -> io::Result<u64> {
+            let lsn = self.0.last_lsn().map(|l| l + 1).unwrap_or(0);
+            self.push(lsn, kind, tid, prev_lsn, object_id, row_id, undo, redo)?;
+            Ok(lsn)
+        }
+
+        /// Forces the log (same call the pager issues at commit).
+        pub fn force(&mut self) -> io::Result<()> {
+            self.0.flush()
+        }
+
+        pub fn truncate(&mut self) -> io::Result<()> {
+            self.0.truncate()
+        }
+
+        /// Reads every record the reader yields, in order.
+        pub fn read_all(&mut self, read_ahead_blocks: usize) -> io::Result<Vec<RecordView>> {
+            let mut out = Vec::new();
+            let mut reader = self.0.reader(read_ahead_blocks)?;
+            while let Some(r) = reader.next_ref()? {
+                let h = r.metadata();
+                out.push(RecordView {
+                    lsn: h.lsn,
+                    tid: h.tid,
+                    prev_lsn: h.prev_lsn,
+                    object_id: h.object_id,
+                    row_id: h.row_id,
+                    kind: h.log_type as u8,
+                    undo: r.undo_payload().to_vec(),
+                    redo: r.redo_payload().to_vec(),
+                });
+            }
+            Ok(out)
+        }
+    }
+}
